@@ -973,7 +973,24 @@ func (ex *Exec) callModular(st *State, fr *Frame, callee *ssa.Function, ct *Func
 		res = append(res, v)
 	}
 	for _, en := range ct.Ensures {
-		ex.assume(st, ex.evalBool(cf, st, pre, res, en.Expr))
+		// post-conditions that talk about the callee's own locals or about the
+		// state at its Lock() are internal to its proof: a caller learns nothing
+		// from them (not assuming a clause is sound)
+		t, ok := func() (t string, ok bool) {
+			defer func() {
+				if r := recover(); r != nil {
+					if e, isEval := r.(evalErr); isEval && (strings.Contains(e.msg, "unknown name") || strings.Contains(e.msg, "atlock()")) {
+						ok = false
+						return
+					}
+					panic(r)
+				}
+			}()
+			return ex.evalBool(cf, st, pre, res, en.Expr), true
+		}()
+		if ok {
+			ex.assume(st, t)
+		}
 	}
 	ex.usedContracts[funcName(callee)] = true
 	return packResults(res)
